@@ -634,7 +634,9 @@ def gen_viewer_op(world, rng):
                 if is_in(x, world.given):
                     world.given = [d for d in world.given if d is not x]
                     for s in x.subsets:
-                        if not is_in(s, world.hidden) and not is_in(s, world.lonely):
+                        # only subsets that have a layer at this point stay behind (inside a delay block the viewer may
+                        # not have heard of a new subset yet, and will not once its dataset's layer is gone)
+                        if not is_in(s, world.hidden) and not is_in(s, world.lonely) and any(a.layer is s for a in v.layers):
                             world.lonely.append(s)
                     world.hidden = [s for s in world.hidden if s.data is not x]
         what = "subset" if isinstance(x, Subset) else "data"
@@ -784,9 +786,11 @@ def run_viewer_history(ctx, kind, length):
                     except Exception as e:
                         # a listener raised while the queued messages were delivered
                         if not world.after_exception:
-                            # attributed to the coordinate replacement when the block contains one (its messages are
-                            # only delivered now), otherwise to the block as such
-                            world.exception_in = "coords_change" if "coords_change" in names else "delay_block_exit"
+                            # attributed to the coordinate replacement / component removal when the block contains one
+                            # (their messages are only delivered now), otherwise to the block as such
+                            suspects = [x for x in names if x.startswith("coords_change")] + \
+                                       [x for x in names if x.startswith("remove_component")]
+                            world.exception_in = suspects[0] if suspects else "delay_block_exit"
                         world.after_exception = True
                         ctx.count("op_raised:%s:delay_block_exit:%s" % (kind, type(e).__name__))
                         trace.append(["delay_block_exit", "raised:" + type(e).__name__, str(e)[:120]])
